@@ -241,6 +241,9 @@ fn resample2(spec: &Curve2Spec, mode: &Mode) -> Verdict {
         Err(m) => return Verdict::fail(format!("C05/resample2/{}/panic/{sig_len}", mode_name(mode)), format!("resample({:?}) on a curve with L={total:e}, {} vertices, closed={} panicked: {m}", mode, b.curve.count(), b.closed)),
     };
     let mut rv: Vec<Pt<2>> = r.points().to_vec();
+    if let Err(f) = derived_curve2_consistent("C05/resample2", &r) {
+        return Verdict::Fail(f);
+    }
     ensure!(r.is_closed() == b.closed || (!b.closed && r.is_closed()), "C05/resample2/closedness", "closed source gave an open result");
     ensure!(r.tol() == spec.tol, "C05/resample2/tol", "tolerance changed");
     // a closed source re-closes the samples by appending a copy of the first one when the samples do not end at
@@ -293,6 +296,9 @@ fn resample3(spec: &Curve3Spec, mode: &Mode) -> Verdict {
         Err(m) => return Verdict::fail(format!("C05/resample3/{}/panic", mode_name(mode)), format!("resample({:?}) on a 3D curve with L={total:e}, {} vertices panicked: {m}", mode, b.curve.count())),
     };
     let rv: Vec<Pt<3>> = r.points().to_vec();
+    if let Err(f) = derived_curve3_consistent("C05/resample3", &r) {
+        return Verdict::Fail(f);
+    }
     ensure!(r.tol() == spec.tol, "C05/resample3/tol", "tolerance changed");
     if let Err(f) = validate_resample(&mut cx, "3", &b.model, spec.tol, mode, &rv) {
         return Verdict::Fail(f);
@@ -367,6 +373,9 @@ fn simplify2(spec: &Curve2Spec, efrac: f64) -> Verdict {
         Err(m) => return Verdict::fail(format!("C05/simplify2/panic/{}", if b.closed { "closed" } else { "open" }), format!("simplify({e:e}) on a {} curve with {} vertices panicked: {m}", if b.closed { "closed" } else { "open" }, src.len())),
     };
     ensure!(r.is_closed() == b.closed, "C05/simplify2/closedness", "closedness changed: {} -> {}", b.closed, r.is_closed());
+    if let Err(f) = derived_curve2_consistent("C05/simplify2", &r) {
+        return Verdict::Fail(f);
+    }
     match validate_simplified("simplify2", &src, r.points(), e, spec.tol) {
         Ok(d) => {
             cx.label_if(d > 0, "discarded>0");
@@ -398,6 +407,9 @@ fn simplify3(spec: &Curve3Spec, efrac: f64) -> Verdict {
         Ok(r) => r,
         Err(m) => return Verdict::fail("C05/simplify3/panic", format!("simplify({e:e}) on a 3D curve with {} vertices panicked: {m}", src.len())),
     };
+    if let Err(f) = derived_curve3_consistent("C05/simplify3", &r) {
+        return Verdict::Fail(f);
+    }
     // the simplified curve keeps both end points exactly (up to the curve's own de-duplication tolerance, as in 2D)
     match validate_simplified("simplify3", &src, r.points(), e, spec.tol) {
         Ok(d) => {
